@@ -127,6 +127,9 @@ def part_a(rec, li, n, seed, only=None):
                         rec.case(("a", li, n, fr, to, rule, fv, supply, op, omit), (fr, to) in PADS or n >= 3, sample=case)
                         try:
                             r = getattr(g, op)(da, "X", **kw)
+                            if not np.array_equal(da.values, base):
+                                rec.violation("single-axis", "input-array-modified", case, base, da.values)
+                                continue
                         except Exception as e:
                             rec.violation("single-axis", "raise:" + exc_sig(e), case, "array", f"{type(e).__name__}: {e}"[:200])
                             continue
